@@ -748,4 +748,23 @@ Theorem C16_zsh_space_in_name_refuted :
   exists s, zsh_script zs_root cd0 = Some s /\ ~ sublist [45; 120; 91] s.
 Proof. exact zsh_space_in_name_refuted. Qed.
 Print Assumptions C16_zsh_space_in_name_refuted.
+(** the same for the command tree AS THE USER WROTE IT ([Complete/ZshBuildProofs.v]): [binless c] = no subcommand carries an
+    explicit bin name (no spec format sets one).  [Command::build] then yields a [linked] tree with the bin name ... *)
+From ClapModel Require Import Complete.ZshBuildProofs.
+Theorem C16_zsh_build_linked : forall c bin b,
+  binless c = true -> bin <> [] -> build (set_bin_name c bin) = Some b -> c_bin b = Some bin /\ linked b.
+Proof. exact build_linked. Qed.
+Print Assumptions C16_zsh_build_linked.
+
+(** ... so [generate] (= [set_bin_name] + [build] + generator) writes a script for EVERY such tree, every assignment of
+    texts and every non-empty bin name: [build] does not run out of fuel, no [expect] fires, the recursion ends *)
+Theorem C16_zsh_generate_total : forall c d bin,
+  binless c = true -> bin <> [] -> exists s, generate_zsh c d bin = Some s.
+Proof. exact generate_zsh_total. Qed.
+Print Assumptions C16_zsh_generate_total.
+
+Theorem C16_zsh_generate_is_built : forall c d bin b,
+  build (set_bin_name c bin) = Some b -> generate_zsh c d bin = zsh_script b (dbuild (set_bin_name c bin) d).
+Proof. exact generate_zsh_is_built. Qed.
+Print Assumptions C16_zsh_generate_is_built.
 (* ---- end zsh generator model ---- *)
